@@ -3,7 +3,7 @@ import json, os, re, concurrent.futures
 from .. import core
 from ..core import Undecided
 
-WEIGHTS = [0, 1, 2, 3, 5, 7, 10, 50, 100, 127, 128, 255, 256]
+WEIGHTS = [0, 1, 2, 3, 5, 7, 10, 41, 49, 50, 100, 127, 128, 200, 255, 256]
 REPL = list(range(0, 9))
 INIT = [1, 100, 256]
 
@@ -39,7 +39,7 @@ def run(ctx):
     core.build_harness(ctx, ["weightsx"])
     q = ctx.quick()
     # n = 2: TLC enumerates the whole grid (quick: a reduced grid); n = 3: simulated
-    w2 = [0, 1, 2, 3, 7, 50, 128, 255, 256] if q else WEIGHTS
+    w2 = [0, 1, 2, 3, 7, 41, 50, 128, 200, 255, 256] if q else WEIGHTS
     r2 = [0, 1, 2, 3, 5, 8] if q else REPL
     r = core.tlc(ctx, "gen2", "Weights", None, cfgtext=cfg("Spec", ["Emit"], 2, w2, r2), workers=1, timeout=1800)
     if r["rc"] != 0:
